@@ -343,10 +343,11 @@ impl<'a> Evaluator<'a> {
             Pat::Or(o) => {
                 let mut unknown = None;
                 for c in o.cases.iter() {
-                    let mut e2 = env.clone();
+                    // patterns only add bindings: a small scratch environment per alternative, merged on success
+                    let mut e2 = Env::new();
                     match self.pat_match(c, v, &mut e2) {
                         PatM::Yes => {
-                            *env = e2;
+                            env.extend(e2);
                             return PatM::Yes;
                         }
                         PatM::Unknown(s) => unknown = Some(s),
@@ -487,13 +488,16 @@ impl<'a> Evaluator<'a> {
     /// First-match evaluation of a `match`; returns the arm index and the bindings.
     pub fn select_arm(&self, m: &syn::ExprMatch, v: &Val, env: &Env) -> Result<(usize, Env), String> {
         for (i, arm) in m.arms.iter().enumerate() {
-            let mut e2 = env.clone();
-            match self.pat_match(&arm.pat, v, &mut e2) {
+            // patterns only add bindings (they never read the environment): the environment is cloned for the arm that matches
+            let mut binds = Env::new();
+            match self.pat_match(&arm.pat, v, &mut binds) {
                 PatM::No => continue,
                 PatM::Unknown(s) => {
                     return Err(format!("arm {} `{}`: {}", i, tok(&arm.pat), s));
                 }
                 PatM::Yes => {
+                    let mut e2 = env.clone();
+                    e2.extend(binds);
                     if let Some((_, g)) = &arm.guard {
                         match self.eval(g, &mut e2)? {
                             Val::Bool(true) => return Ok((i, e2)),
@@ -611,6 +615,12 @@ impl<'a> Evaluator<'a> {
                         continue;
                     };
                     let v = self.eval(&init.expr, env)?;
+                    if let Val::Ctor(n, p, _) = &v {
+                        // `let x = match y { .. => return Err(..) };` — the early exit leaves the block, nothing is bound
+                        if n == "$return" || n == "$break" || n == "$continue" {
+                            return Ok(Val::Ctor(n.clone(), p.clone(), BTreeMap::new()));
+                        }
+                    }
                     match self.pat_match(&l.pat, &v, env) {
                         PatM::Yes => {}
                         PatM::No => {
@@ -2015,6 +2025,14 @@ impl<'a> Evaluator<'a> {
                                 return Err("match_indices with an empty pattern".into());
                             }
                             return Ok(Val::List(st.match_indices(pat.as_str()).map(|(i, m)| if name == "matches" { Val::Str(m.to_string()) } else { Val::Tuple(vec![Val::int(i as i128), Val::Str(m.to_string())]) }).collect()));
+                        }
+                        "split" | "rsplit" if mc.args.len() == 1 => {
+                            let pat = match self.eval(&mc.args[0], env)? { Val::Char(c) => c.to_string(), Val::Str(p) if !p.is_empty() => p, o => return Err(format!("split({})", o.show())) };
+                            let mut parts: Vec<Val> = st.split(pat.as_str()).map(|w| Val::Str(w.to_string())).collect();
+                            if name == "rsplit" {
+                                parts.reverse();
+                            }
+                            return Ok(Val::List(parts));
                         }
                         "to_uppercase" => return Ok(Val::Str(st.to_uppercase())),
                         "repeat" if mc.args.len() == 1 => match self.eval(&mc.args[0], env)? {
